@@ -194,12 +194,33 @@ impl Context
     #[allow(dead_code)]
     pub fn cache_next_reference_id(&self, id: u32, directory_path: &str)
     {
+        if self.try_cache_next_reference_id(id, directory_path).is_err()
+        {
+            // The cause has already been logged.
+        }
+    }
+
+    /// Cache the next reference ID in a lock file and report whether that worked. If caching is
+    /// disabled, this is a no-op. The lock file is replaced atomically (written to a temporary
+    /// file, then renamed) so that it is never left empty or half-written.
+    ///
+    /// # Arguments
+    ///
+    /// * `id` - The next reference ID to cache.
+    /// * `directory_path` - The directory containing the lock file.
+    #[allow(dead_code)]
+    pub fn try_cache_next_reference_id(&self, id: u32, directory_path: &str) -> Result<(), String>
+    {
         if !self.config.use_cache
         {
-            return;
+            return Ok(());
         }
 
         let cache_path = std::path::Path::new(directory_path).join(Context::CACHE_FILENAME);
+        // Like the temporary files for source code, this goes in the temporary directory so
+        // that nothing is ever left behind in the project.
+        let temp_cache_path =
+            std::env::temp_dir().join(format!("breadlog-lock-{}.tmp", uuid::Uuid::new_v4()));
 
         let cache = Cache {
             next_reference_id: id,
@@ -211,20 +232,35 @@ impl Context
             {
                 yaml.insert_str(0, Context::CACHE_EDIT_WARNING);
 
-                if let Err(e) = std::fs::write(cache_path, yaml)
+                let write_result = std::fs::write(&temp_cache_path, yaml)
+                    .and_then(|_| std::fs::rename(&temp_cache_path, &cache_path));
+
+                if let Err(e) = write_result
                 {
+                    if std::fs::remove_file(&temp_cache_path).is_ok()
+                    {}
+
                     log::warn!(
                         "[ref: 33] Failed to write lock file {}: {}",
                         Context::CACHE_FILENAME,
                         e
                     );
+
+                    return Err(e.to_string());
                 }
+
+                Ok(())
             },
-            Err(e) => log::warn!(
-                "[ref: 34] Failed to serialize lock file {}: {}",
-                Context::CACHE_FILENAME,
-                e
-            ),
+            Err(e) =>
+            {
+                log::warn!(
+                    "[ref: 34] Failed to serialize lock file {}: {}",
+                    Context::CACHE_FILENAME,
+                    e
+                );
+
+                Err(e.to_string())
+            },
         }
     }
 }
